@@ -40,8 +40,8 @@ LEVEL = "exploration"
 RULE = (
     "cases = (loop) 1-12 application sends in both directions between the real Bridge and 1-2 real Executor receive loops, with a "
     "generated fate for every Syn-framed transmission and every Ack (deliver, drop, duplicate, hold past later traffic), generated "
-    "interleaving of endpoint turns and timeouts on a virtual clock; fairness: at most 5 drops per message/ack and no transmission "
-    "held longer than 6 timeouts; then a loss-free drain. Oracle: nothing is delivered to an application that was not sent, nothing "
+    "interleaving of endpoint turns and timeouts on a virtual clock; fairness: at most 2 drops per message/ack and no transmission "
+    "held longer than 3 timeouts; then a loss-free drain. Oracle: nothing is delivered to an application that was not sent, nothing "
     "twice, at quiescence delivered == sent in both directions and nothing is in flight, and no endpoint raises. (giveup) every "
     "transmission of one message dropped: maybe_retry must raise within max_retries_per_message retries and must not forget the "
     "message earlier. (frames) generated frame lists (pickles of Syn/Ack/header/messages, raw bytes, wrong arity) through "
@@ -292,7 +292,7 @@ def run_loop(c, holder) -> tuple[bool, list[str], object]:
                 if not pending_sends and not net.inflight and steps > 5 and ch.choose(4) == 0:
                     break
                 # fairness: a transmission held for 6 timeouts must be delivered now
-                forced = [i for i, m in enumerate(net.inflight) if age.get(m["seq"], 0) >= 6]
+                forced = [i for i, m in enumerate(net.inflight) if age.get(m["seq"], 0) >= 3]
                 if forced:
                     opt = ("net-deliver", forced[0])
                 else:
@@ -306,7 +306,7 @@ def run_loop(c, holder) -> tuple[bool, list[str], object]:
                     kind = _framed(m["frames"])
                     fk = fate_key(m)
                     fate = 0 if opt[0] == "net-deliver" else ch.choose(4)
-                    if fate == 1 and drops.get(fk, 0) >= 5:
+                    if fate == 1 and drops.get(fk, 0) >= 2:
                         fate = 0
                     if fate == 0:
                         net.deliver(i)
